@@ -4,6 +4,10 @@
 static int vf_compress_fast_continue(LZ4_stream_t* s, const char* src, char* dst, int n, int cap, int acc);
 static int vf_saveDict(LZ4_stream_t* s, char* safe, int k);
 static int vf_fastReset(void* state, const char* src, char* dst, int n, int cap, int acc);
+static void vf_attach(LZ4_stream_t* w, const LZ4_stream_t* d);
+static int vf_loadDict(LZ4_stream_t* s, const char* dict, int n);
+#define LZ4_attach_dictionary vf_attach
+#define LZ4_loadDict vf_loadDict
 #define LZ4_compress_fast_continue vf_compress_fast_continue
 #define LZ4_saveDict vf_saveDict
 #define LZ4_compress_fast_extState_fastReset vf_fastReset
@@ -11,13 +15,15 @@ static int vf_fastReset(void* state, const char* src, char* dst, int n, int cap,
 #undef LZ4_compress_fast_continue
 #undef LZ4_saveDict
 #undef LZ4_compress_fast_extState_fastReset
+#undef LZ4_attach_dictionary
+#undef LZ4_loadDict
 static int g_life_on = 0; static unsigned char* g_life = NULL; static size_t g_life_n = 0, g_life_cap = 0; static unsigned long long g_life_blocks = 0, g_life_saves = 0;
 static void life_put(const void* d, size_t n) { if (g_life_n + n > g_life_cap) { g_life_cap = (g_life_n + n) * 2 + 256; g_life = (unsigned char*)realloc(g_life, g_life_cap); } if (n) memcpy(g_life + g_life_n, d, n); g_life_n += n; }
 static unsigned char g_life_init[32 + 4 * LZ4_HASH_SIZE_U32]; static size_t g_life_init_n = 0;
 static int vf_compress_fast_continue(LZ4_stream_t* s, const char* src, char* dst, int n, int cap, int acc)
 {
     int r;
-    if (g_life_on && g_life_n == 0) {     /* first call of the frame: the state the LZ4 stream of the compression context is in (fresh, or what LZ4_resetStream_fast made of earlier frames) */
+    if (g_life_on && g_life_n == 0 && g_life_init_n == 0) {     /* first call of the frame: the state the LZ4 stream of the compression context is in (fresh, or what LZ4_resetStream_fast made of earlier frames) */
         const LZ4_stream_t_internal* in = &s->internal_donotuse; unsigned int v; unsigned long long a = (unsigned long long)(size_t)in->dictionary; int i; unsigned char* q = g_life_init;
         v = in->currentOffset; memcpy(q, &v, 4); v = in->dictSize; memcpy(q + 4, &v, 4); memcpy(q + 8, &a, 8); v = in->tableType; memcpy(q + 16, &v, 4); v = in->dictCtx != NULL; memcpy(q + 20, &v, 4);
         for (i = 0; i < LZ4_HASH_SIZE_U32; i++) { v = in->hashTable[i]; memcpy(q + 24 + 4 * i, &v, 4); }
@@ -31,6 +37,24 @@ static int vf_saveDict(LZ4_stream_t* s, char* safe, int k)
 {
     int r = LZ4_saveDict(s, safe, k);
     if (g_life_on) { unsigned char kk = 1; unsigned long long a = (unsigned long long)(size_t)safe; life_put(&kk, 1); life_put(&a, 8); life_put(&k, 4); life_put(&r, 4); g_life_saves++; }
+    return r;
+}
+/* dictionaries: a prepared dictionary stream attached (CDict: LZ4_resetStream_fast was called just before), a raw dictionary loaded into the working stream */
+static unsigned long long g_life_attach = 0, g_life_load = 0;
+static void vf_attach(LZ4_stream_t* w, const LZ4_stream_t* d)
+{
+    if (g_life_on && d) { const LZ4_stream_t_internal* in = &d->internal_donotuse; unsigned char k = 2; unsigned long long a = (unsigned long long)(size_t)in->dictionary; unsigned int n = in->dictSize;
+        if (g_life_n == 0 && g_life_init_n == 0) { /* state of the working stream when the frame starts */ const LZ4_stream_t_internal* wi = &w->internal_donotuse; unsigned int v; unsigned long long wa = (unsigned long long)(size_t)wi->dictionary; int i; unsigned char* q = g_life_init;
+            v = wi->currentOffset; memcpy(q, &v, 4); v = wi->dictSize; memcpy(q + 4, &v, 4); memcpy(q + 8, &wa, 8); v = wi->tableType; memcpy(q + 16, &v, 4); v = wi->dictCtx != NULL; memcpy(q + 20, &v, 4);
+            for (i = 0; i < LZ4_HASH_SIZE_U32; i++) { v = wi->hashTable[i]; memcpy(q + 24 + 4 * i, &v, 4); }
+            g_life_init_n = 24 + 4 * LZ4_HASH_SIZE_U32; }
+        life_put(&k, 1); life_put(&a, 8); life_put(&n, 4); life_put(in->dictionary, n); g_life_attach++; }
+    LZ4_attach_dictionary(w, d);
+}
+static int vf_loadDict(LZ4_stream_t* s, const char* dict, int n)
+{
+    int r = LZ4_loadDict(s, dict, n);
+    if (g_life_on) { unsigned char k = 3; unsigned long long a = (unsigned long long)(size_t)dict; unsigned int un = (unsigned int)n; life_put(&k, 1); life_put(&a, 8); life_put(&un, 4); life_put(dict, (size_t)n); life_put(&r, 4); g_life_load++; }
     return r;
 }
 /* independent-blocks frames: only the state of the context's LZ4 stream at the first block is needed (the blocks themselves follow from the call pattern) */
